@@ -22,7 +22,8 @@ CONSTANTS
   Name0,      \* the name symbols are constructed with (a member of Names)
   Pays,       \* non-node symbol payload tokens, e.g. "#0", "#7"  (integers as strings)
   Labels,     \* CFG edge label tokens; "nolabel" is the absent label
-  Tags,       \* flag / aux-key / attribute tokens
+  Tags,       \* flag / aux-key / attribute tokens: naturals (k-th constant of the enum; aux key "k<k>")
+  NFlags,     \* number of section-flag constants in the schema (tags of sections stay below it)
   ByteVals,   \* byte values stored in intervals
   MaxBytes,   \* longest stored byte string explored
   Families,   \* action families switched on: <<"f", "*">> or <<"f", rel>>
@@ -31,7 +32,19 @@ CONSTANTS
   Attach0,    \* initial attachment: sequence of <<child, parent>>, parents first
   LazyK,      \* saturation bound of the pending-event counters
   Queries,    \* <<lo, hi, step>> ranges the Lookup action may use
-  EmitKeys    \* which fields of the state record are printed
+  EmitKeys,   \* which fields of the state record are printed
+  ScalDom,    \* [field -> set of tokens a plain attribute is assigned from]
+  ScalDef,    \* [field -> token the constructors default to]
+  ExprKind,   \* [Exprs -> "ac" | "aa"]   SymAddrConst / SymAddrAddr
+  ExprSym2,   \* [Exprs -> second symbol of an "aa" expression | NONE]
+  Symx0,      \* initial symbolic expressions: set of <<interval, offset, expr>>
+  Cfg0,       \* initial CFG edges: set of <<ir, <<source, target, label>>>>
+  Pay0,       \* initial symbol payloads: set of <<symbol, payload>>
+  Entry0,     \* initial entry points: set of <<module, code block>>
+  ReloadWeight, \* how many times Reload is offered to the random simulator (>= 1)
+  SweepOps,   \* operation names allowed as the later steps of a sweep
+  SweepMode,  \* BOOLEAN: is this configuration a sweep
+  TrackObs    \* BOOLEAN: keep the derived fields of EmitKeys in the variable obs
 
 NONE == "none"
 NoneIdx == 99               \* a slice bound that was omitted (Python None)
@@ -45,6 +58,7 @@ SetParents == Modules \cup Sections \cup Intervals
 Children  == Nodes \ IRs
 LazyOwners == Sections \cup Intervals
 TagHolders == IRs \cup Modules \cup Sections \cup Exprs
+ScalHolders == Modules \cup Sections \cup Symbols \cup CodeBlocks \cup Exprs
 
 \* The five set-valued parent/child relations ("mod", the IR's module list, is the sixth).
 Rels == {"sec", "sym", "prx", "biv", "blk"}
@@ -56,6 +70,13 @@ RelOf(c) == CASE c \in Sections -> "sec" [] c \in Symbols -> "sym" [] c \in Prox
               [] c \in Intervals -> "biv" [] c \in Blocks -> "blk" [] c \in Modules -> "mod"
 ParentsOf(c) == IF c \in Modules THEN IRs ELSE RelParents(RelOf(c))
 
+FieldsOf(h) == IF h \in Modules THEN {"name", "binary_path", "isa", "file_format", "byte_order",
+                                      "preferred_addr", "rebase_delta"}
+               ELSE IF h \in Sections THEN {"name"}
+               ELSE IF h \in Symbols THEN {"at_end"}
+               ELSE IF h \in CodeBlocks THEN {"decode_mode"}
+               ELSE IF ExprKind[h] = "aa" THEN {"xoffset", "xscale"} ELSE {"xoffset"}   \* expressions
+NoShadow == [none |-> TRUE]
 On(f) == <<f, "*">> \in Families
 OnR(f, r) == <<f, "*">> \in Families \/ <<f, r>> \in Families
 TrackLazy == On("lazy")
@@ -80,15 +101,19 @@ VARIABLES
   bytes,          \* [Intervals -> Seq(ByteVals)]
   tags,           \* [TagHolders -> SUBSET Tags]   flags / aux_data keys / expression attributes
   entry,          \* [Modules -> CodeBlocks \cup {NONE}]
+  scal,           \* [ScalHolders -> [field -> token]]  plain attributes (names, enums, numbers)
+  shadow,         \* [IRs -> content of the IR at its last save+load | NoShadow]   (deep_eq twin, C18)
+  obs,            \* derived observations of the current state (only when TrackObs; for simulation dumps)
   op              \* the last operation: what the harness executes and compares
 
 treeVars == <<mods, kids, par, cache, nidx, ridx, nev>>
 geomVars == <<addr, isz, off, bsz>>
 symVars  == <<sname, pay>>
-restVars == <<symx, cfg, bytes, tags, entry>>
+miscVars == <<scal, shadow>>
+restVars == <<symx, cfg, bytes, tags, entry, scal, shadow>>
 absView  == <<mods, kids, par, cache, nidx, ridx, built, nev, addr, isz, off, bsz,
-              sname, pay, symx, cfg, bytes, tags, entry>>
-vars     == <<absView, op>>
+              sname, pay, symx, cfg, bytes, tags, entry, scal, shadow>>
+vars     == <<absView, obs, op>>
 
 Exc(c) == [exc |-> c]
 Min2(a, b) == IF a < b THEN a ELSE b
@@ -225,13 +250,17 @@ InitS ==
                               ELSE AttachSet(S, p, c), Tail(as))
   IN Go(E, Attach0)
 
-Init ==
+InitCore ==
   /\ addr = [v \in Intervals |-> NOADDR] /\ isz = [v \in Intervals |-> 0]
   /\ off = [b \in Blocks |-> 0] /\ bsz = [b \in Blocks |-> 0]
-  /\ sname = [y \in Symbols |-> DefName] /\ pay = [y \in Symbols |-> NONE]
-  /\ symx = [v \in Intervals |-> {}] /\ cfg = [i \in IRs |-> {}]
+  /\ sname = [y \in Symbols |-> DefName]
+  /\ pay = [y \in Symbols |-> IF \E a \in Pay0 : a[1] = y THEN (CHOOSE a \in Pay0 : a[1] = y)[2] ELSE NONE]
+  /\ symx = [v \in Intervals |-> {<<a[2], a[3]>> : a \in {x \in Symx0 : x[1] = v}}]
+  /\ cfg = [i \in IRs |-> {a[2] : a \in {x \in Cfg0 : x[1] = i}}]
   /\ bytes = [v \in Intervals |-> <<>>] /\ tags = [h \in TagHolders |-> {}]
-  /\ entry = [m \in Modules |-> NONE]
+  /\ entry = [m \in Modules |-> IF \E a \in Entry0 : a[1] = m THEN (CHOOSE a \in Entry0 : a[1] = m)[2] ELSE NONE]
+  /\ scal = [h \in ScalHolders |-> [f \in FieldsOf(h) |-> ScalDef[f]]]
+  /\ shadow = [i \in IRs |-> NoShadow]
   /\ built = [x \in LazyOwners |-> FALSE]
   /\ LET S == InitS IN /\ mods = S.mods /\ kids = S.kids /\ par = S.par /\ cache = S.cache
                        /\ nidx = S.nidx /\ ridx = S.ridx
@@ -244,8 +273,11 @@ DoTree(o, S) == /\ op' = o /\ Commit(S)
 \* A query: nothing changes.
 DoQuery(o) == /\ op' = o /\ UNCHANGED absView
 
+\* subsets with at most k elements (never SUBSET of a large set)
+RECURSIVE UpTo(_, _)
+UpTo(X, k) == IF k = 0 THEN {{}} ELSE LET P == UpTo(X, k - 1) IN P \cup {A \cup {x} : A \in P, x \in X}
 Coll(p, r) == kids[p] \cap RelChildren(r)
-ArgSets(r) == {A \in SUBSET RelChildren(r) : Cardinality(A) <= ArgMax}
+ArgSets(r) == UpTo(RelChildren(r), ArgMax)
 Seqs(X) == UNION {{s \in [1..n -> X] : \A i, j \in 1..n : i # j => s[i] # s[j]} : n \in 0..ArgMax}
 
 -----------------------------------------------------------------------------
@@ -381,7 +413,7 @@ ListQuery(ir) ==
 (* Attributes that index keys are computed from (the notify-parent           *)
 (* descriptor: index discard with the old key, set, index add with the new). *)
 
-DoGeom(o, S) == /\ op' = o /\ Commit(S) /\ UNCHANGED <<built, symVars, symx, cfg, tags, entry>>
+DoGeom(o, S) == /\ op' = o /\ Commit(S) /\ UNCHANGED <<built, symVars, symx, cfg, tags, entry, miscVars>>
 
 Trunc(bs, z) == IF Len(bs) > z THEN SubSeq(bs, 1, z) ELSE bs
 
@@ -409,13 +441,13 @@ SetBSize(b, z) ==
 SetBytes(v, bs) ==
   /\ On("bytes") /\ Len(bs) <= isz[v] /\ bytes' = [bytes EXCEPT ![v] = bs]
   /\ op' = [name |-> "attr.bytes", v |-> v, bs |-> bs, res |-> NONE]
-  /\ UNCHANGED <<treeVars, built, geomVars, symVars, symx, cfg, tags, entry>>
+  /\ UNCHANGED <<treeVars, built, geomVars, symVars, symx, cfg, tags, entry, miscVars>>
 SetInitSize(v, k) ==
   /\ On("bytes") /\ k <= isz[v]
   /\ bytes' = [bytes EXCEPT ![v] = IF k <= Len(@) THEN SubSeq(@, 1, k)
                                     ELSE @ \o [j \in 1..(k - Len(@)) |-> 0]]
   /\ op' = [name |-> "attr.initsize", v |-> v, k |-> k, res |-> NONE]
-  /\ UNCHANGED <<treeVars, built, geomVars, symVars, symx, cfg, tags, entry>>
+  /\ UNCHANGED <<treeVars, built, geomVars, symVars, symx, cfg, tags, entry, miscVars>>
 
 -----------------------------------------------------------------------------
 (* Symbols: name and payload; the module's two indexes follow as the code's. *)
@@ -440,14 +472,21 @@ SetPayload(y, pv) ==
 SetEntry(m, c) ==
   /\ On("entry") /\ entry' = [entry EXCEPT ![m] = c]
   /\ op' = [name |-> "mod.entry", m |-> m, c |-> c, res |-> NONE]
-  /\ UNCHANGED <<treeVars, built, geomVars, symVars, symx, cfg, bytes, tags>>
+  /\ UNCHANGED <<treeVars, built, geomVars, symVars, symx, cfg, bytes, tags, miscVars>>
 
 \* flags of sections, aux_data keys of IRs/modules, attributes of expressions
 TagOp(h, t) ==
-  /\ On("tags")
+  /\ On("tags") /\ (h \in Sections => t < NFlags)
   /\ \/ /\ tags' = [tags EXCEPT ![h] = @ \cup {t}] /\ op' = [name |-> "tag.add", h |-> h, t |-> t, res |-> NONE]
      \/ /\ tags' = [tags EXCEPT ![h] = @ \ {t}] /\ op' = [name |-> "tag.del", h |-> h, t |-> t, res |-> NONE]
-  /\ UNCHANGED <<treeVars, built, geomVars, symVars, symx, cfg, bytes, entry>>
+  /\ UNCHANGED <<treeVars, built, geomVars, symVars, symx, cfg, bytes, entry, miscVars>>
+
+\* plain attributes: every field of every node kind that save writes and deep_eq compares
+SetScalar(h, f, t) ==
+  /\ On("scal") /\ f \in FieldsOf(h) /\ t \in ScalDom[f]
+  /\ scal' = [scal EXCEPT ![h][f] = t]
+  /\ op' = [name |-> "scal", h |-> h, f |-> f, t |-> t, res |-> NONE]
+  /\ UNCHANGED <<treeVars, built, geomVars, symVars, symx, cfg, bytes, tags, entry, shadow>>
 
 -----------------------------------------------------------------------------
 (* ByteInterval.symbolic_expressions: the MutableMapping interface.          *)
@@ -456,9 +495,8 @@ Keys(v) == {kv[1] : kv \in symx[v]}
 ValAt(v, k) == (CHOOSE kv \in symx[v] : kv[1] = k)[2]
 Put(M, k, e) == {kv \in M : kv[1] # k} \cup {<<k, e>>}
 DoSymx(o, v, M) == /\ op' = o /\ symx' = [symx EXCEPT ![v] = M]
-                   /\ UNCHANGED <<treeVars, built, geomVars, symVars, cfg, bytes, tags, entry>>
-Maps == {M \in SUBSET (Offs \X Exprs) : Cardinality(M) <= ArgMax
-                                        /\ \A a, b \in M : a[1] = b[1] => a = b}
+                   /\ UNCHANGED <<treeVars, built, geomVars, symVars, cfg, bytes, tags, entry, miscVars>>
+Maps == {M \in UpTo(Offs \X Exprs, ArgMax) : \A a, b \in M : a[1] = b[1] => a = b}
 RECURSIVE PutAll(_, _)
 PutAll(M, N) == IF N = {} THEN M ELSE LET kv == CHOOSE x \in N : TRUE IN PutAll(Put(M, kv[1], kv[2]), N \ {kv})
 
@@ -490,9 +528,17 @@ SymxOp(v) ==
 (* IR.cfg: a MutableSet of <<source, target, label>>.                        *)
 
 Edges == CfgNodes \X CfgNodes \X Labels
-EdgeArgs == {A \in SUBSET Edges : Cardinality(A) <= ArgMax}
+EdgeArgs == UpTo(Edges, ArgMax)
 DoCfg(o, i, E) == /\ op' = o /\ cfg' = [cfg EXCEPT ![i] = E]
-                  /\ UNCHANGED <<treeVars, built, geomVars, symVars, symx, bytes, tags, entry>>
+                  /\ UNCHANGED <<treeVars, built, geomVars, symVars, symx, bytes, tags, entry, miscVars>>
+\* a cheap subset for random simulation over a universe with many labels
+SmallLabels == {"nolabel", "L000", "L111"} \cap Labels
+CfgSmall(i) ==
+  /\ On("cfg.small")
+  /\ \/ \E a, b \in CfgNodes, l \in SmallLabels :
+          \/ DoCfg([name |-> "cfg.add", ir |-> i, e |-> <<a, b, l>>, res |-> NONE], i, cfg[i] \cup {<<a, b, l>>})
+          \/ DoCfg([name |-> "cfg.discard", ir |-> i, e |-> <<a, b, l>>, res |-> NONE], i, cfg[i] \ {<<a, b, l>>})
+     \/ DoCfg([name |-> "cfg.clear", ir |-> i, res |-> NONE], i, {})
 CfgOp(i) ==
   /\ On("cfg")
   /\ LET E == cfg[i]
@@ -619,8 +665,10 @@ Pristine(n) ==
   /\ KidsOf(S0, n) = {}
   /\ (IF n \in Intervals THEN addr[n] = NOADDR /\ isz[n] = 0 /\ symx[n] = {} /\ bytes[n] = <<>> ELSE TRUE)
   /\ (IF n \in Blocks THEN off[n] = 0 /\ bsz[n] = 0 ELSE TRUE)
-  /\ (IF n \in Symbols THEN sname[n] = DefName /\ pay[n] = NONE /\ \A e \in Exprs : ExprSym[e] # n ELSE TRUE)
+  /\ (IF n \in Symbols THEN sname[n] = DefName /\ pay[n] = NONE
+                              /\ \A e \in Exprs : ExprSym[e] # n /\ ExprSym2[e] # n ELSE TRUE)
   /\ (IF n \in TagHolders THEN tags[n] = {} ELSE TRUE)
+  /\ (IF n \in ScalHolders THEN \A f \in FieldsOf(n) : scal[n][f] = ScalDef[f] ELSE TRUE)
   /\ (IF n \in Modules THEN entry[n] = NONE ELSE TRUE)
   /\ \A y \in Symbols : pay[y] # n
   /\ \A m \in Modules : entry[m] # n
@@ -646,12 +694,39 @@ New(n, p, K) ==
                 /\ built' = [o \in LazyOwners |-> IF o = n THEN FALSE ELSE built[o]]
                 /\ UNCHANGED <<geomVars, symVars, restVars>>
 
+\* ---- the gtirb.proto.IR message save must write for IR i (PROTOBUF.md, proto/*.proto), as nested
+\* records; repeated fields whose order carries no meaning are sets.  UUIDs are node ids.
+BlockMsg(b) == [uuid |-> b, offset |-> off[b], size |-> bsz[b], kind |-> IF b \in CodeBlocks THEN "code" ELSE "data",
+                decode_mode |-> IF b \in CodeBlocks THEN scal[b]["decode_mode"] ELSE "-"]
+ExprMsg(k, e) == [key |-> k, kind |-> ExprKind[e], sym1 |-> ExprSym[e], sym2 |-> ExprSym2[e],
+                  offset |-> scal[e]["xoffset"], scale |-> IF ExprKind[e] = "aa" THEN scal[e]["xscale"] ELSE "-",
+                  attrs |-> tags[e]]
+IntervalMsg(v) == [uuid |-> v, has_address |-> addr[v] # NOADDR, address |-> IF addr[v] = NOADDR THEN 0 ELSE addr[v],
+                   size |-> isz[v], contents |-> bytes[v], blocks |-> {BlockMsg(b) : b \in kids[v]},
+                   symx |-> {ExprMsg(kv[1], kv[2]) : kv \in symx[v]}]
+SectionMsg(s) == [uuid |-> s, name |-> scal[s]["name"], flags |-> tags[s],
+                  intervals |-> {IntervalMsg(v) : v \in kids[s]}]
+SymbolMsg(y) == [uuid |-> y, name |-> sname[y], at_end |-> scal[y]["at_end"],
+                 payload |-> IF pay[y] = NONE THEN "none" ELSE IF pay[y] \in Referents THEN "referent" ELSE "value",
+                 value |-> pay[y]]
+ModuleMsg(m) == [uuid |-> m, scal |-> scal[m], entry |-> entry[m], aux |-> tags[m],
+                 proxies |-> kids[m] \cap Proxies,
+                 sections |-> {SectionMsg(s) : s \in kids[m] \cap Sections},
+                 symbols |-> {SymbolMsg(y) : y \in kids[m] \cap Symbols}]
+EdgeMsg(e) == [src |-> e[1], tgt |-> e[2], label |-> e[3]]
+\* what deep_eq compares: everything but the CFG vertex list (and module order, AuxData values)
+Content(i) == [uuid |-> i, aux |-> tags[i], modules |-> {ModuleMsg(m) : m \in ToSet(mods[i])},
+               edges |-> {EdgeMsg(e) : e \in cfg[i]}]
+MsgOf(i) == [content |-> Content(i), module_order |-> mods[i],
+             vertices |-> Sub(S0, i) \cap CfgNodes]
+
 SelfContained(i) ==
   LET R == Sub(S0, i) IN
   /\ \A y \in Symbols \cap R : pay[y] \in Referents => ModOf(pay[y]) = par[y]
   /\ \A m \in Modules \cap R : entry[m] # NONE => ModOf(entry[m]) = m
   /\ \A v \in Intervals \cap R : \A kv \in symx[v] :
-        ExprSym[kv[2]] # NONE /\ ModOf(ExprSym[kv[2]]) = ModOf(v)
+        /\ ExprSym[kv[2]] # NONE /\ ModOf(ExprSym[kv[2]]) = ModOf(v)
+        /\ ExprKind[kv[2]] = "aa" => (ExprSym2[kv[2]] # NONE /\ ModOf(ExprSym2[kv[2]]) = ModOf(v))
   /\ \A e \in cfg[i] : e[1] \in R /\ e[2] \in R
 \* The harness swaps its objects for the loaded ones, so nothing outside the IR may keep a
 \* reference into it, and an expression object stored twice would come back as two objects.
@@ -667,33 +742,93 @@ Reload(i) ==
   /\ LET R == Sub(S0, i) IN
      /\ built' = [o \in LazyOwners |-> IF o \in R THEN FALSE ELSE built[o]]
      /\ nev' = [o \in LazyOwners |-> IF o \in R THEN 0 ELSE nev[o]]
-  /\ op' = [name |-> "reload", ir |-> i, res |-> NONE]
-  /\ UNCHANGED <<mods, kids, par, cache, nidx, ridx, geomVars, symVars, restVars>>
+  /\ op' = [name |-> "reload", ir |-> i, res |-> NONE, msg |-> MsgOf(i)]
+  /\ shadow' = IF On("shadow") THEN [shadow EXCEPT ![i] = Content(i)] ELSE shadow
+  /\ UNCHANGED <<mods, kids, par, cache, nidx, ridx, geomVars, symVars, symx, cfg, bytes, tags, entry, scal>>
 
 -----------------------------------------------------------------------------
-Next ==
-  \/ \E c \in Children : \E p \in ParentsOf(c) \cup {NONE} : SetParent(c, p)
-  \/ \E r \in Rels : OnR("set", r) /\ \E p \in RelParents(r) : SetMut(r, p)
-  \/ \E r \in Rels : OnR("setq", r) /\ \E p \in RelParents(r) : SetQuery(r, p)
-  \/ On("list") /\ \E i \in IRs : ListMut(i)
-  \/ On("listq") /\ \E i \in IRs : ListQuery(i)
-  \/ \E v \in Intervals : \/ \E a \in Addrs \cup {NOADDR} : SetAddr(v, a)
-                          \/ \E z \in ISizes : SetISize(v, z)
-                          \/ \E bs \in UNION {[1..k -> ByteVals] : k \in 0..MaxBytes} : SetBytes(v, bs)
-                          \/ \E k \in 0..MaxBytes : SetInitSize(v, k)
-                          \/ SymxOp(v)
-  \/ \E b \in Blocks : (\E o \in Offs : SetOff(b, o)) \/ (\E z \in BSizes : SetBSize(b, z))
-  \/ \E y \in Symbols : \/ \E nm \in Names : SetName(y, nm)
-                        \/ \E pv \in Referents \cup Pays \cup {NONE} : SetPayload(y, pv)
-  \/ \E m \in Modules, c \in CodeBlocks \cup {NONE} : SetEntry(m, c)
-  \/ \E h \in TagHolders, t \in Tags : TagOp(h, t)
-  \/ \E i \in IRs : CfgOp(i)
-  \/ \E x \in Nodes, fam \in LFams, q \in Queries : Lookup(x, fam, q)
-  \/ \E n \in Nodes : \E p \in (IF n \in IRs THEN {} ELSE ParentsOf(n)) \cup {NONE} :
-       \E K \in SUBSET ChildKinds(n) : New(n, p, K)
-  \/ \E i \in IRs : Reload(i)
+(* Files the writer never produces (C09 second half, C17): one structural    *)
+(* fault injected into the message of a self-contained IR.  The abstract     *)
+(* state does not change; op carries the message, the fault and the outcome  *)
+(* the properties prescribe.                                                 *)
 
-Spec == Init /\ [][Next]_vars
+Site(s, a, b, c) == [site |-> s, a |-> a, b |-> b, c |-> c]
+RefSites(i) ==
+  LET R == Sub(S0, i) IN
+  {Site("referent", y, "-", "-") : y \in {z \in Symbols \cap R : pay[z] \in Referents}}
+  \cup {Site("entry", m, "-", "-") : m \in {x \in Modules \cap R : entry[x] # NONE}}
+  \cup UNION {{Site("edge.src", e[1], e[2], e[3]), Site("edge.tgt", e[1], e[2], e[3])} : e \in cfg[i]}
+  \cup UNION {UNION {{Site("expr.sym1", v, ToString(kv[1]), kv[2])}
+                     \cup (IF ExprKind[kv[2]] = "aa" THEN {Site("expr.sym2", v, ToString(kv[1]), kv[2])} ELSE {})
+                     : kv \in symx[v]} : v \in Intervals \cap R}
+\* attached nodes of a kind the reference must not name
+WrongKind(i, s) ==
+  LET R == Sub(S0, i) IN
+  CASE s.site = "referent" -> R \cap (Sections \cup Symbols \cup Intervals \cup Modules)
+    [] s.site = "entry" -> R \cap (DataBlocks \cup Proxies \cup Symbols \cup Sections)
+    [] s.site \in {"edge.src", "edge.tgt"} -> R \cap (DataBlocks \cup Symbols \cup Sections \cup Modules)
+    [] s.site \in {"expr.sym1", "expr.sym2"} -> R \cap (Blocks \cup Proxies \cup Sections)
+OtherFaults == {"dup-uuid-same-kind", "dup-uuid-cross-kind", "unknown-enum", "uuid-too-short", "uuid-too-long",
+                "bad-magic", "bad-version-byte", "bad-version-field", "truncated-header"}
+FaultExpect(f) == IF f \in {"bad-magic", "bad-version-byte", "bad-version-field", "truncated-header"} THEN "ValueError"
+             ELSE "reject-or-coherent"
+LoadFault(i) ==
+  /\ On("fault") /\ SelfContained(i)
+  /\ \/ \E s \in RefSites(i) :
+          \/ op' = [name |-> "loadfault", ir |-> i, msg |-> MsgOf(i), fault |-> "dangling", site |-> s, to |-> NONE,
+                     expect |-> "DeserializationError", res |-> NONE]
+          \/ \E w \in WrongKind(i, s) :
+               op' = [name |-> "loadfault", ir |-> i, msg |-> MsgOf(i), fault |-> "ill-typed", site |-> s, to |-> w,
+                      expect |-> "DeserializationError", res |-> NONE]
+     \/ \E f \in OtherFaults :
+          op' = [name |-> "loadfault", ir |-> i, msg |-> MsgOf(i), fault |-> f, site |-> Site("-", "-", "-", "-"),
+                 to |-> NONE, expect |-> FaultExpect(f), res |-> NONE]
+  /\ UNCHANGED absView
+
+-----------------------------------------------------------------------------
+\* In a sweep (SweepMode) only the first step is free; later steps are generated only for the
+\* operation names in SweepOps (the action constraints Sweep / SweepAfterReload then select exactly).
+G(names) == ~SweepMode \/ TLCGet("level") = 1 \/ (TLCGet("level") <= 3 /\ names \cap SweepOps # {})
+SetNames == {"set.add", "set.discard", "set.remove", "set.pop", "set.clear", "set.update", "set.ior", "set.iand",
+             "set.isub", "set.ixor"}
+ListNames == {"list.insert", "list.append", "list.remove", "list.setitem", "list.extend", "list.iadd", "list.setslice",
+              "list.delitem", "list.pop", "list.delslice", "list.clear", "list.reverse"}
+SymxNames == {"symx.set", "symx.setdefault", "symx.del", "symx.pop", "symx.get", "symx.contains", "symx.popitem",
+              "symx.clear", "symx.len", "symx.update", "symx.assign"}
+CfgNames == {"cfg.add", "cfg.discard", "cfg.remove", "cfg.contains", "cfg.pop", "cfg.clear", "cfg.update", "cfg.ior",
+             "cfg.iand", "cfg.isub", "cfg.ixor"}
+NextCore ==
+  \/ G({"setparent"}) /\ \E c \in Children : \E p \in ParentsOf(c) \cup {NONE} : SetParent(c, p)
+  \/ G(SetNames) /\ \E r \in Rels : OnR("set", r) /\ \E p \in RelParents(r) : SetMut(r, p)
+  \/ G({}) /\ \E r \in Rels : OnR("setq", r) /\ \E p \in RelParents(r) : SetQuery(r, p)
+  \/ G(ListNames) /\ On("list") /\ \E i \in IRs : ListMut(i)
+  \/ G({}) /\ On("listq") /\ \E i \in IRs : ListQuery(i)
+  \/ \E v \in Intervals : \/ G({"attr.addr"}) /\ \E a \in Addrs \cup {NOADDR} : SetAddr(v, a)
+                          \/ G({"attr.isize"}) /\ \E z \in ISizes : SetISize(v, z)
+                          \/ G({"attr.bytes"}) /\ \E bs \in UNION {[1..k -> ByteVals] : k \in 0..MaxBytes} : SetBytes(v, bs)
+                          \/ G({"attr.initsize"}) /\ \E k \in 0..MaxBytes : SetInitSize(v, k)
+                          \/ G(SymxNames) /\ SymxOp(v)
+  \/ \E b \in Blocks : (G({"attr.off"}) /\ \E o \in Offs : SetOff(b, o)) \/ (G({"attr.bsize"}) /\ \E z \in BSizes : SetBSize(b, z))
+  \/ \E y \in Symbols : \/ G({"sym.name"}) /\ \E nm \in Names : SetName(y, nm)
+                        \/ G({"sym.payload"}) /\ \E pv \in Referents \cup Pays \cup {NONE} : SetPayload(y, pv)
+  \/ G({"mod.entry"}) /\ \E m \in Modules, c \in CodeBlocks \cup {NONE} : SetEntry(m, c)
+  \/ G({"tag.add", "tag.del"}) /\ \E h \in TagHolders, t \in Tags : TagOp(h, t)
+  \/ G({"scal"}) /\ \E h \in ScalHolders : \E f \in FieldsOf(h) : \E t \in ScalDom[f] : SetScalar(h, f, t)
+  \/ G(CfgNames) /\ \E i \in IRs : CfgOp(i) \/ CfgSmall(i)
+  \/ G({"lookup"}) /\ \E x \in Nodes, fam \in LFams, q \in Queries : Lookup(x, fam, q)
+  \/ G({"new"}) /\ \E n \in Nodes : \E p \in (IF n \in IRs THEN {} ELSE ParentsOf(n)) \cup {NONE} :
+       \E K \in UpTo(ChildKinds(n), ArgMax) : New(n, p, K)
+  \/ G({"reload"}) /\ \E i \in IRs, w \in 1..ReloadWeight : Reload(i)
+  \/ G({"loadfault"}) /\ \E i \in IRs : LoadFault(i)
+
+\* state constraints for "one perturbation, then ..." sweeps
+Depth2 == TLCGet("level") <= 2
+Depth3 == TLCGet("level") <= 3
+\* action constraint: any one step from the initial state, then only save+load
+Sweep == TLCGet("level") = 1 \/ (TLCGet("level") = 2 /\ op'.name \in SweepOps)
+\* action constraint: save+load first, then any one step of the listed kinds
+SweepAfterReload == (TLCGet("level") = 1 /\ op'.name = "reload") \/ (TLCGet("level") = 2 /\ op'.name \in SweepOps)
+SweepAfterReload2 == (TLCGet("level") = 1 /\ op'.name = "reload") \/ (TLCGet("level") \in {2, 3} /\ op'.name \in SweepOps)
 
 -----------------------------------------------------------------------------
 (* Invariants.                                                               *)
@@ -728,7 +863,11 @@ Field(k) ==
     [] k = "addr" -> addr [] k = "isz" -> isz [] k = "off" -> off [] k = "bsz" -> bsz
     [] k = "sname" -> sname [] k = "pay" -> pay [] k = "symx" -> symx [] k = "cfg" -> cfg
     [] k = "bytes" -> bytes [] k = "tags" -> tags [] k = "entry" -> entry
-    [] k = "built" -> built [] k = "nev" -> nev
+    [] k = "built" -> built [] k = "nev" -> nev [] k = "scal" -> scal
+    [] k = "deq" -> [i \in IRs |-> IF shadow[i] = NoShadow THEN "none"
+                                   ELSE IF ~SelfContained(i) THEN "unknown"
+                                   ELSE IF Content(i) = shadow[i] THEN "equal" ELSE "differ"]
+    [] k = "shadowed" -> [i \in IRs |-> IF shadow[i] = NoShadow THEN "none" ELSE ToJson(shadow[i])]
     [] k = "irof" -> [c \in Children |-> IrOf(S0, c)]
     [] k = "modof" -> [c \in Children \ Modules |-> ModOf(c)]
     [] k = "secof" -> [c \in Intervals \cup Blocks |-> SecOf(c)]
@@ -743,10 +882,14 @@ Field(k) ==
     [] k = "nout" -> [n \in CfgNodes |-> IF IrOf(S0, n) = NONE THEN {} ELSE OutEdges(IrOf(S0, n), n)]
     [] k = "nin" -> [n \in CfgNodes |-> IF IrOf(S0, n) = NONE THEN {} ELSE InEdges(IrOf(S0, n), n)]
 BaseKeys == {"mods", "kids", "par", "cache", "addr", "isz", "off", "bsz", "sname", "pay", "symx",
-             "cfg", "bytes", "tags", "entry", "built", "nev"}
+             "cfg", "bytes", "tags", "entry", "built", "nev", "scal", "shadowed"}
 \* identity of a state for the harness: the base variables that are printed
 KeyRec == [k \in EmitKeys \cap BaseKeys |-> Field(k)]
 StateRec == [k \in EmitKeys |-> Field(k)]
+ObsRec == IF TrackObs THEN [k \in EmitKeys \ BaseKeys |-> Field(k)] ELSE <<>>
+Init == InitCore /\ obs = ObsRec
+Next == NextCore /\ obs' = ObsRec'
+Spec == Init /\ [][Next]_vars
 Emit == PrintT(ToJson([pre |-> KeyRec, op |-> op', post |-> StateRec', lvl |-> TLCGet("level")]))
 
 =============================================================================
